@@ -60,10 +60,19 @@ RoundTripViol(ev) ==
          \cup V(Len(ev.Geq) < 3 \/ ev.Geq[3], "DefaultSaveConvergesInTwoRoundsBytes")
 
 (* ---------------- C02: three saves of one live model, queries before/after ---------------- *)
+\* equality after canonical string-table renumbering: every string index is compared through the string it denotes
+Resolved(f, b) == [j \in 1..Len(b.wstrs) |-> IF b.wstrs[j] >= 0 /\ b.wstrs[j] < Len(f.strings) THEN f.strings[b.wstrs[j] + 1] ELSE ""]
+StringBag(f) == [x \in {f.strings[k] : k \in 1..Len(f.strings)} |-> Cardinality({k \in 1..Len(f.strings) : f.strings[k] = x})]
+SameBlockModStrings(f, a, g, b) == a.type = b.type /\ a.size = b.size /\ a.cid = b.cid /\ a.wrefs = b.wrefs /\ Resolved(f, a) = Resolved(g, b)
+SameFileModStrings(f, g) ==
+    /\ f.len = g.len /\ f.nblocks = g.nblocks /\ f.types = g.types /\ f.tidx = g.tidx /\ f.sizes = g.sizes
+    /\ StringBag(f) = StringBag(g) /\ f.maxLen = g.maxLen /\ Len(f.blocks) = Len(g.blocks) /\ f.footer = g.footer
+    /\ \A k \in 1..Len(f.blocks) : SameBlockModStrings(f, f.blocks[k], g, g.blocks[k])
 RepeatSaveViol(ev) ==
-    V(SameFile(ev.S1, ev.S2) /\ SameFile(ev.S2, ev.S3), "RepeatedSaveSameFile")
-    \cup V(ev.eq12 /\ ev.eq23, "RepeatedSaveSameBytesAfterStringRenumbering")
-    \cup V(ev.q0 = ev.q1 /\ ev.q1 = ev.q2 /\ ev.q2 = ev.q3, "QueriesUnchangedBySave")
+    V(SameFileModStrings(ev.S1, ev.S2), "SecondSaveSameAsFirst")
+    \cup V(SameFileModStrings(ev.S2, ev.S3), "ThirdSaveSameAsSecond")
+    \cup V(ev.q0 = ev.q1, "QueriesUnchangedByFirstSave")
+    \cup V(ev.q1 = ev.q2 /\ ev.q2 = ev.q3, "QueriesUnchangedByLaterSaves")
 
 (* ---------------- C03: blocks relabelled as unknown survive untouched ---------------- *)
 \* f: the input file (types of the set U relabelled), g: what Load+Save wrote
